@@ -82,6 +82,11 @@ pub struct Case {
     pub gate: Vec<GStep>,
     pub jitter: Vec<u8>,
     pub gated: bool,
+    /// the gate stays shut until shut_down() has begun: the shutdown-time drain meets a backlog
+    /// (with whatever per-entry results the script holds); awaited flushes become fire-and-forget
+    /// and are awaited after the shutdown
+    #[serde(default)]
+    pub backlog_at_shutdown: bool,
 }
 
 pub fn flush_interval(us: u32) -> Duration {
@@ -103,20 +108,21 @@ pub fn check(case: &Case) -> CaseResult {
         })
         .sum();
     let log = Arc::new(EventLog::default());
-    let gate = Gate::new(!case.gated);
+    let backlog = case.backlog_at_shutdown;
+    let gate = Gate::new(!(case.gated || backlog));
     let mut stream = BqStream::new(case.results.clone(), gate.clone(), log.clone());
     stream.jitter = case.jitter.clone();
     // capacity >= total appends: no overflow by construction
     let (q, handle) = build_queue(total.max(1) + 1, case.boxed, flush_interval(case.flush_us), stream);
     let flush_counter = std::sync::atomic::AtomicU32::new(0);
     let reports_before = REPORTS_SEEN.load(std::sync::atomic::Ordering::Relaxed);
-    let res: Result<(), Fail> = std::thread::scope(|s| {
+    let res: Result<Vec<(u32, FlushWait)>, Fail> = std::thread::scope(|s| {
         let mut hs = vec![];
         for (pi, ops) in case.producers.iter().enumerate() {
             let q = q.clone();
             let log = log.clone();
             let fc = &flush_counter;
-            hs.push(s.spawn(move || -> Result<(), Fail> {
+            hs.push(s.spawn(move || -> Result<Vec<(u32, FlushWait)>, Fail> {
                 let mut q = q;
                 let mut seq = 0u32;
                 let mut pending: Vec<(u32, FlushWait)> = vec![];
@@ -140,6 +146,11 @@ pub fn check(case: &Case) -> CaseResult {
                             log.push(Ev::FlushReq(i));
                             pending.push((i, q.flush_async()));
                         }
+                        POp::FlushAwait if backlog => {
+                            let i = fc.fetch_add(1, std::sync::atomic::Ordering::SeqCst);
+                            log.push(Ev::FlushReq(i));
+                            pending.push((i, q.flush_async()));
+                        }
                         POp::FlushAwait => {
                             let i = fc.fetch_add(1, std::sync::atomic::Ordering::SeqCst);
                             log.push(Ev::FlushReq(i));
@@ -153,13 +164,16 @@ pub fn check(case: &Case) -> CaseResult {
                         POp::CloneHandle => q = q.clone(),
                     }
                 }
+                if backlog {
+                    return Ok(pending);
+                }
                 for (i, f) in pending {
                     if block_on_timeout(f, Duration::from_secs(40)).is_none() {
                         return Err(Fail::new("inconclusive:flush-timeout", "flush did not complete in 40 s"));
                     }
                     log.push(Ev::FlushDone(i));
                 }
-                Ok(())
+                Ok(vec![])
             }));
         }
         // controller: gate script, then open
@@ -172,11 +186,17 @@ pub fn check(case: &Case) -> CaseResult {
                 }
             }
         }
-        gate.open();
-        let mut r = Ok(());
+        if !backlog {
+            gate.open();
+        }
+        let mut r = Ok(vec![]);
         for h in hs {
             match h.join() {
-                Ok(Ok(())) => {}
+                Ok(Ok(mut p)) => {
+                    if let Ok(all) = &mut r {
+                        all.append(&mut p);
+                    }
+                }
                 Ok(Err(f)) => r = Err(f),
                 Err(_) => r = Err(Fail::new("panic:producer", format!("producer panicked: {:?}", take_last_panic()))),
             }
@@ -184,14 +204,41 @@ pub fn check(case: &Case) -> CaseResult {
         r
     });
     drop(q);
+    let queued_at_shutdown = backlog && (gate.consumed() as usize) < total;
+    let opener = backlog.then(|| {
+        let gate = gate.clone();
+        let log = log.clone();
+        let delay = case.jitter.first().copied().unwrap_or(0);
+        std::thread::spawn(move || {
+            let t0 = std::time::Instant::now();
+            while log.count(|e| matches!(e, Ev::HandleDropStart)) == 0 && t0.elapsed() < Duration::from_secs(5) {
+                std::thread::yield_now();
+            }
+            jitter(delay);
+            gate.open();
+        })
+    });
     log.push(Ev::HandleDropStart);
-    no_panic("queue-shutdown", || handle.shut_down())?;
+    let sd = no_panic("queue-shutdown", || handle.shut_down());
+    if let Some(o) = opener {
+        let _ = o.join();
+    }
+    sd?;
     log.push(Ev::HandleDropEnd);
-    if let Err(f) = res {
-        if f.sig.starts_with("inconclusive") {
-            return Ok(vec!["inconclusive-timeout"]);
+    let pending = match res {
+        Ok(p) => p,
+        Err(f) => {
+            if f.sig.starts_with("inconclusive") {
+                return Ok(vec!["inconclusive-timeout"]);
+            }
+            return Err(f);
         }
-        return Err(f);
+    };
+    for (i, f) in pending {
+        if block_on_timeout(f, Duration::from_secs(40)).is_none() {
+            vfail!("queue:flush-never-completes-after-shutdown", "flush {i} requested before shut_down() never completed");
+        }
+        log.push(Ev::FlushDone(i));
     }
     if gate.timed_out.load(std::sync::atomic::Ordering::Relaxed) {
         return Ok(vec!["inconclusive-timeout"]);
@@ -233,6 +280,12 @@ pub fn check(case: &Case) -> CaseResult {
     }
     if case.gated {
         classes.push("gated-writer");
+    }
+    if queued_at_shutdown {
+        classes.push("backlog-at-shutdown");
+        if evs.iter().any(|e| matches!(e, Ev::Next(_, r) if *r == SRes::Io)) {
+            classes.push("io-result-inside-shutdown-backlog");
+        }
     }
     if busy >= 2 && (non_ok || flushes) {
         classes.push("nt");
@@ -353,8 +406,9 @@ pub fn arb_case(max_producers: usize, max_ops: usize) -> impl Strategy<Value = C
         ),
         prop::collection::vec(any::<u8>(), 0..8),
         prop::bool::weighted(0.7),
+        prop::bool::weighted(0.25),
     )
-        .prop_map(|(boxed, flush_us, producers, results, gate, jitter, gated)| Case {
+        .prop_map(|(boxed, flush_us, producers, results, gate, jitter, gated, backlog_at_shutdown)| Case {
             boxed,
             flush_us,
             producers,
@@ -362,10 +416,11 @@ pub fn arb_case(max_producers: usize, max_ops: usize) -> impl Strategy<Value = C
             gate,
             jitter,
             gated,
+            backlog_at_shutdown,
         })
 }
 
-pub const RULE: &str = "1-6 real producer threads x 0-25 ops (append, bursts, flush requests fired or awaited, yields/spins/sleeps, continuing through a clone) on a typed or boxed queue with capacity > total appends; the library's own writer thread; per-call stream results Ok/Validation/Io; writer progress owned by a generated fuel script (grants, pauses, wait-until-parked-at-the-gate) so that park/unpark races and drained-then-refilled queues occur; flush interval 1us / 1ms / 50ms; no tracing subscriber (in-band report path live). Oracle over the global event log after shut_down(): every appended (producer, seq) reaches the stream exactly once, per-producer seq increasing, nothing else except the in-band report (only after a validation error, process-wide <= 1/s), stream flushed after the last entry and dropped. Non-trivial = >=2 producers with >=2 entries each and (a non-Ok result or a flush request)";
+pub const RULE: &str = "1-6 real producer threads x 0-25 ops (append, bursts, flush requests fired or awaited, yields/spins/sleeps, continuing through a clone) on a typed or boxed queue with capacity > total appends; the library's own writer thread; per-call stream results Ok/Validation/Io; writer progress owned by a generated fuel script (grants, pauses, wait-until-parked-at-the-gate) so that park/unpark races and drained-then-refilled queues occur; flush interval 1us / 1ms / 50ms; in a quarter of the cases the gate stays shut until shut_down() has begun, so that the shutdown-time drain meets a backlog with Io / Validation results inside it; no tracing subscriber (in-band report path live). Oracle over the global event log after shut_down(): every appended (producer, seq) reaches the stream exactly once, per-producer seq increasing, nothing else except the in-band report (only after a validation error, process-wide <= 1/s), stream flushed after the last entry and dropped. Non-trivial = >=2 producers with >=2 entries each and (a non-Ok result or a flush request)";
 
 pub fn run(ctx: &mut Ctx) {
     ctx.assume("thread interleavings are sampled (perturbed by generated yields/spins/sleeps in producers and in the stream callbacks and by the fuel script), not enumerated");
@@ -376,7 +431,7 @@ pub fn run(ctx: &mut Ctx) {
         SubCfg::new("c01-delivery", RULE, if q { 1_500 } else { 40_000 })
             .threads(ctx.tier.pick(4, 8))
             .shrink_iters(200)
-            .mandatory(&["non-ok-result", "flush-request", "boxed-queue", "typed-queue", "gated-writer"]),
+            .mandatory(&["non-ok-result", "flush-request", "boxed-queue", "typed-queue", "gated-writer", "backlog-at-shutdown", "io-result-inside-shutdown-backlog"]),
         || arb_case(6, 25),
         check,
     );
@@ -392,6 +447,7 @@ pub fn run(ctx: &mut Ctx) {
         || {
             arb_case(6, 120).prop_map(|mut c| {
                 c.gated = false;
+                c.backlog_at_shutdown = false;
                 c
             })
         },
